@@ -9,7 +9,9 @@ import (
 	"encoding/json"
 	"fmt"
 	"os"
+	"reflect"
 	"strings"
+	"unsafe"
 )
 
 // T carries the draw source of one harness execution.
@@ -201,6 +203,7 @@ func RunNative(t TB, name string, entry func(*T)) {
 		}
 		var in struct {
 			Entry string            `json:"entry"`
+			Kind  string            `json:"kind"`
 			Draws map[string]uint64 `json:"draws"`
 		}
 		if err := json.Unmarshal(raw, &in); err != nil {
@@ -210,19 +213,32 @@ func RunNative(t TB, name string, entry func(*T)) {
 		if in.Entry != name {
 			continue
 		}
-		v := &T{draws: in.Draws}
+		// counterexamples may depend on Go's randomised map iteration order (a schedule the
+		// symbolic run fixed): they are retried a few times; samples run once
+		attempts := 1
+		if in.Kind == "cex" || in.Kind == "known" {
+			attempts = 12
+		}
+		var v *T
 		res := Result{}
-		func() {
-			defer func() {
-				if r := recover(); r != nil {
-					if _, ok := r.(stop); ok {
-						return
+		for a := 0; a < attempts; a++ {
+			v = &T{draws: in.Draws}
+			res = Result{}
+			func() {
+				defer func() {
+					if r := recover(); r != nil {
+						if _, ok := r.(stop); ok {
+							return
+						}
+						res.Panic = fmt.Sprint(r)
 					}
-					res.Panic = fmt.Sprint(r)
-				}
+				}()
+				entry(v)
 			}()
-			entry(v)
-		}()
+			if len(v.Failed) > 0 || res.Panic != "" {
+				break
+			}
+		}
 		res.Failed, res.Skipped, res.Obs, res.Reach, res.Missing = v.Failed, v.Skipped, v.obs, v.reach, v.missing
 		out, _ := json.Marshal(res)
 		os.WriteFile(f+".result.json", out, 0o644)
@@ -251,4 +267,31 @@ func B2U8(a bool) uint8 {
 		return 1
 	}
 	return 0
+}
+
+// SetUnexported sets obj.<path> = val where path is a dot-separated list of field
+// names (embedded fields by their type name); nil pointers on the way are allocated.
+// It lets a harness build just enough of a dependency's struct (e.g. mesh.Router's
+// Ourself.Peer.Name) without running its constructor. obj must be a pointer to a struct.
+func SetUnexported(obj interface{}, path string, val interface{}) {
+	cur := reflect.ValueOf(obj).Elem()
+	names := strings.Split(path, ".")
+	for i, n := range names {
+		f := cur.FieldByName(n)
+		if !f.IsValid() {
+			panic("verifrt: no field " + n)
+		}
+		f = reflect.NewAt(f.Type(), unsafe.Pointer(f.UnsafeAddr())).Elem()
+		if i == len(names)-1 {
+			f.Set(reflect.ValueOf(val).Convert(f.Type()))
+			return
+		}
+		if f.Kind() == reflect.Ptr {
+			if f.IsNil() {
+				f.Set(reflect.New(f.Type().Elem()))
+			}
+			f = f.Elem()
+		}
+		cur = f
+	}
 }
